@@ -32,3 +32,44 @@ package absnfs
 //@ loop 2 invariant 0 <= rangeindex + 1 && rangeindex + 1 <= len(auxCopy) && fresh(auxCopy) && len(auxCopy) == len(old(authSys.AuxGIDs)) && off(auxCopy) == 0
 //@ loop 2 invariant forall(i, 0, rangeindex + 1, auxCopy[i] == 65534)
 //@ loop 2 invariant forall(i, 0, len(old(authSys.AuxGIDs)), old(authSys.AuxGIDs)[i] == old(old(authSys.AuxGIDs)[i]))
+
+// ---- host filter (C09). The membership rule, from the property: the client address parses and, after
+// IPv4-mapped normalisation, equals a listed address or lies in a listed CIDR. Malformed entries never match.
+//@ specdef hasSlash(s string) bool = exists(k, 0, len(s), s[k] == '/')
+//@ specdef entryAllows(client string, entry string) bool = ite(hasSlash(entry), cidrOK(entry) && inCIDR(client, entry), ipParses(entry) && sameAddr(entry, client))
+//@ specdef allowed(client string, list []string) bool = ipParses(client) && exists(a, off(list), off(list) + len(list), entryAllows(client, absidx(list, a)), absidx(list, a))
+
+//@ func normalizeIP
+//@ prop C09
+//@ modifies ipSrc
+// normalisation never changes which address text the value stands for
+//@ ensures [same-address] ipSrc[arr(result)] == old(ipSrc[arr(ip)]) && (isnil(result) <==> isnil(ip))
+//@ ensures [others] forall(o, mathint, o != arr(result) ==> ipSrc[o] == old(ipSrc[o]))
+//@ ensures [same-array-or-fresh] arr(result) == arr(ip) || fresh(result)
+
+//@ func isIPAllowed
+//@ prop C09
+//@ modifies ipSrc, cidrSrc
+//@ ensures [membership] result == allowed(clientIP, allowedIPs)
+//@ loop 1 invariant 0 <= rangeindex + 1 && rangeindex + 1 <= len(allowedIPs) && !isnil(ip) && ipSrc[arr(ip)] == clientIP && ipParses(clientIP)
+//@ loop 1 invariant forall(a, off(allowedIPs), off(allowedIPs) + rangeindex + 1, !entryAllows(clientIP, absidx(allowedIPs, a)), absidx(allowedIPs, a))
+
+//@ func Server.isIPAllowed
+//@ prop C09
+//@ requires s != nil && (s.handler != nil ==> curPolicy(s.handler) != nil)
+//@ modifies ipSrc, cidrSrc
+// the connection-level filter applies the same membership rule as the request-level one
+//@ ensures [same-rule] s.handler != nil && len(curPolicy(s.handler).AllowedIPs) > 0 ==> result == allowed(clientIP, curPolicy(s.handler).AllowedIPs)
+//@ ensures [open-when-unset] s.handler == nil || len(curPolicy(s.handler).AllowedIPs) == 0 ==> result
+//@ loop 1 invariant s != nil && s.handler != nil && policy == curPolicy(s.handler) && policy != nil && 0 <= rangeindex + 1 && rangeindex + 1 <= len(policy.AllowedIPs) && !isnil(ip) && ipSrc[arr(ip)] == clientIP && ipParses(clientIP)
+//@ loop 1 invariant forall(a, off(policy.AllowedIPs), off(policy.AllowedIPs) + rangeindex + 1, !entryAllows(clientIP, absidx(policy.AllowedIPs, a)), absidx(policy.AllowedIPs, a))
+
+//@ func ValidateAuthentication
+//@ prop C09 C10
+//@ requires ctx != nil && policy != nil && ctx.Credential != nil
+//@ ensures [result] result != nil && fresh(result)
+//@ ensures [host-filter] len(policy.AllowedIPs) > 0 && !allowed(ctx.ClientIP, policy.AllowedIPs) ==> !result.Allowed
+//@ ensures [secure-port] policy.Secure && ctx.ClientPort >= 1024 ==> !result.Allowed
+//@ ensures [auth-none] {C10} result.Allowed && ctx.Credential.Flavor == 0 ==> result.UID == 65534 && result.GID == 65534
+//@ ensures [other-flavors-denied] {C10} ctx.Credential.Flavor != 0 && ctx.Credential.Flavor != 1 ==> !result.Allowed
+//@ ensures [undecodable-authsys-denied] {C10} result.Allowed && ctx.Credential.Flavor == 1 ==> ctx.AuthSys != nil
